@@ -295,6 +295,12 @@ class Task:
             self.exc = e
             if isinstance(self.counter, CountingSource):
                 self.calls_at_end = (self.counter.pulls, self.counter.calls, self.counter.stops)
+            if int(self.spec.get("data", "0")[-2:] or "0", 16) % 2 == 0:
+                # what callers do with an error before they look at its remaining bytes: compare, hash, print
+                try:
+                    e == e, e != None, e == ValueError("x"), hash(e), repr(e), str(e)  # noqa: E711
+                except Exception:
+                    pass
             rem = getattr(e, "bytes_remaining", None)
             try:
                 self.remaining = None if rem is None else bytes(rem)
